@@ -522,6 +522,9 @@ func NewDirectory(dserv ipld.DAGService, opts ...DirectoryOption) (Directory, er
 // ErrNotADir implies that the given node was not a unixfs directory
 var ErrNotADir = errors.New("merkledag node was not a directory or shard")
 
+// errMaxLinksReached is returned by a BasicDirectory that is full.
+var errMaxLinksReached = errors.New("BasicDirectory: cannot add child: maxLinks reached")
+
 // NewDirectoryFromNode loads a unixfs directory from the given IPLD node and
 // DAGService.
 func NewDirectoryFromNode(dserv ipld.DAGService, node ipld.Node) (Directory, error) {
@@ -819,7 +822,7 @@ func (d *BasicDirectory) addLinkChild(ctx context.Context, name string, link *ip
 		}
 		// Entry didn't exist, so this is a new link. Check maxLinks.
 		if d.maxLinks > 0 && d.totalLinks+1 > d.maxLinks {
-			return errors.New("BasicDirectory: cannot add child: maxLinks reached")
+			return errMaxLinksReached
 		}
 	}
 	// else: entry existed and was removed, no maxLinks check needed for replacement
@@ -1311,12 +1314,16 @@ func (d *DynamicDirectory) AddChild(ctx context.Context, name string, nd ipld.No
 				WithStat(hamtDir.mode, hamtDir.mtime),
 				WithSizeEstimationMode(hamtDir.GetSizeEstimationMode()),
 			)
-			if err != nil {
-				return err
+			if err == nil {
+				// Propagate per-directory HAMT sharding size (not a DirectoryOption)
+				basicDir.SetHAMTShardingSize(hamtDir.GetHAMTShardingSize())
+				err = basicDir.AddChild(ctx, name, nd)
 			}
-			// Propagate per-directory HAMT sharding size (not a DirectoryOption)
-			basicDir.SetHAMTShardingSize(hamtDir.GetHAMTShardingSize())
-			err = basicDir.AddChild(ctx, name, nd)
+			if errors.Is(err, errMaxLinksReached) {
+				// totalLinks undercounts a HAMT loaded from its root node:
+				// there are more than maxLinks entries, stay a HAMT.
+				return hamtDir.AddChild(ctx, name, nd)
+			}
 			if err != nil {
 				return err
 			}
@@ -1394,6 +1401,11 @@ func (d *DynamicDirectory) RemoveChild(ctx context.Context, name string) error {
 		WithStat(hamtDir.mode, hamtDir.mtime),
 		WithSizeEstimationMode(hamtDir.GetSizeEstimationMode()),
 	)
+	if errors.Is(err, errMaxLinksReached) {
+		// totalLinks undercounts a HAMT loaded from its root node:
+		// there are more than maxLinks entries, stay a HAMT.
+		return hamtDir.RemoveChild(ctx, name)
+	}
 	if err != nil {
 		return err
 	}
